@@ -9,6 +9,21 @@ Lemma flow_ok_within f : flow_ok true f = true -> flow_within f.
 Proof. unfold flow_ok, flow_within, counted. intros H. apply andb_true_iff in H. destruct H as [H1 H2].
   apply Nat.leb_le in H1. apply Nat.leb_le in H2. auto. Qed.
 
+(* the high-water mark of jdf_assign_ldef_index is the number of slots the generated code needs *)
+Lemma fold_max_deps base ds m :
+  fold_left (fun m d => Nat.max m (dep_high base d)) ds m = Nat.max m (list_max (map (dep_high base) ds)).
+Proof. revert m. induction ds as [|d ds IH]; intros m; cbn [fold_left map list_max fold_right]; [lia|].
+  rewrite IH. fold (list_max (map (dep_high base) ds)). lia. Qed.
+
+Lemma fold_max_flows base fls m :
+  fold_left (fun m fl => fold_left (fun m d => Nat.max m (dep_high base d)) (fl_deps fl) m) fls m
+  = Nat.max m (list_max (map (dep_high base) (flat_map fl_deps fls))).
+Proof. revert m. induction fls as [|fl fls IH]; intros m; cbn [fold_left flat_map]; [cbn; lia|].
+  rewrite IH, fold_max_deps, map_app, list_max_app. lia. Qed.
+
+Theorem ldef_counted_is_needed f : ldef_counted f = ldef_needed f.
+Proof. unfold ldef_counted, ldef_needed, all_deps. rewrite fold_max_flows. cbn [list_max fold_right]. reflexivity. Qed.
+
 Lemma func_ok_within f : func_ok true f = true -> func_within f.
 Proof.
   unfold func_ok, func_within. intros H.
@@ -19,7 +34,7 @@ Proof.
   rewrite forallb_forall in H. split; [|split].
   - intros x Hin. apply flow_ok_within. auto.
   - apply Nat.leb_le. assumption.
-  - apply Nat.leb_le. assumption.
+  - rewrite <- ldef_counted_is_needed. apply Nat.leb_le. assumption.
 Qed.
 
 (* accepted programs respect every runtime limit (repaired counting) *)
@@ -64,9 +79,9 @@ Proof. intros ->. reflexivity. Qed.
    program that overflows dep_in: one flow with six ternary input dependencies emits 12 entries *)
 Definition tern6 : program :=
   {| pg_mal := WellFormed;
-     pg_funcs := [ {| fn_locals := 1; fn_ldef := 0;
+     pg_funcs := [ {| fn_locals := 1; fn_pdefs := 0;
                       fn_flows := [ {| fl_access := AccRead;
-                                       fl_deps := repeat {| dp_in := true; dp_guard := GTernary |} 6 |} ] |} ] |}.
+                                       fl_deps := repeat {| dp_in := true; dp_guard := GTernary; dp_ldefs := 0; dp_ct := 0; dp_cf := 0 |} 6 |} ] |} ] |}.
 Theorem prefix_counting_refuted : exists p, accept false p = true /\ ~ within_limits p.
 Proof.
   exists tern6. split; [vm_compute; reflexivity|].
